@@ -35,6 +35,18 @@ def setup_paths():
     logging.disable(logging.CRITICAL)
 
 
+def import_library():
+    """import every module of the package, as an application that uses the whole library does: a module-level side
+    effect of one module (a default XML parser, a patched table, a registry) is then in force for all the others"""
+    import pkgutil
+    import metapype
+    for m in pkgutil.walk_packages(metapype.__path__, "metapype."):
+        try:
+            importlib.import_module(m.name)
+        except Exception:   # noqa  (a module that does not import is somebody else's finding: the test suite covers it)
+            pass
+
+
 def h64(obj) -> int:
     if not isinstance(obj, (bytes, str)):
         obj = json.dumps(obj, sort_keys=True, default=repr, ensure_ascii=True)
@@ -619,6 +631,7 @@ def main(argv=None):
     t0 = time.time()
     try:
         mod = importlib.import_module("props." + prop.lower())
+        import_library()
     except Exception:
         traceback.print_exc()
         print(f"HARNESS-ERROR property={prop} cannot import check or code under test")
